@@ -6,6 +6,8 @@ Template syntax (lines starting with //@ inside a .tmpl.rs file):
   //@  rewrite /<regex>/ => /<replacement>/          (applied to the extracted text, in order)
   //@  spec <verus clause line>                      (requires / ensures / decreases lines, copied verbatim
   //@                                                 between the signature and the body)
+  //@  attr <verus attribute>                       (placed in front of the function, e.g. #[verifier::exec_allows_no_decreases_clause]
+  //@                                                 where termination is explicitly NOT claimed)
   //@  strip_cfg <feature>                          (drop items guarded by #[cfg(feature = "<feature>")]: what a build without
   //@                                                 that feature compiles)
   //@  body_prefix <text>                           (proof hint placed right after the opening brace of the body; may only
@@ -103,7 +105,7 @@ def expand_template(scratch, tmpl_path):
         line = lines[i]
         if line.strip().startswith("//@extract"):
             args = dict(a.split("=", 1) for a in shlex.split(line.strip()[len("//@extract"):]))
-            rewrites, specs, loops, prefix, loop_prefix, strip = [], [], {}, [], {}, []
+            rewrites, specs, loops, prefix, loop_prefix, strip, attrs = [], [], {}, [], {}, [], []
             i += 1
             while not lines[i].strip().startswith("//@end"):
                 l = lines[i].strip()
@@ -115,6 +117,8 @@ def expand_template(scratch, tmpl_path):
                     rewrites.append((m.group(1), m.group(2)))
                 elif l.startswith("spec "):
                     specs.append(l[5:])
+                elif l.startswith("attr "):
+                    attrs.append(l[len("attr "):].strip())
                 elif l.startswith("strip_cfg "):
                     strip.append(l[len("strip_cfg "):].strip())
                 elif l.startswith("body_prefix "):
@@ -171,6 +175,8 @@ def expand_template(scratch, tmpl_path):
                 body = "{\n        " + "\n        ".join(prefix) + body[1:]
             vis = args.get("vis", "")
             out.append("// ---- extracted from %s:%d (fn %s) ----" % (args["file"], line_no, args["fn"]))
+            for a in attrs:
+                out.append(a)
             out.append((vis + " " if vis else "") + sig.rstrip())
             for s in specs:
                 out.append("    " + s)
